@@ -91,16 +91,23 @@ where
             }
 
             match handle.as_mut().poll_next(cx) {
-                Poll::Ready(Some(sock)) => match sock {
-                    Socket::Stream(st) => {
-                        stream.as_mut().insert(*next_stream_id, st);
-                        *next_stream_id += 1;
+                Poll::Ready(Some(sock)) => {
+                    match sock {
+                        Socket::Stream(st) => {
+                            stream.as_mut().insert(*next_stream_id, st);
+                            *next_stream_id += 1;
+                        }
+                        Socket::Sink(si) => {
+                            sink.as_mut().insert(*next_sink_id, si);
+                            *next_sink_id += 1;
+                        }
                     }
-                    Socket::Sink(si) => {
-                        sink.as_mut().insert(*next_sink_id, si);
-                        *next_sink_id += 1;
-                    }
-                },
+
+                    // Yielding a socket consumed the waker held by the channel. Poll it again
+                    // until it is pending (waker registered) or closed, otherwise a later
+                    // registration or shutdown would not wake this future.
+                    continue;
+                }
                 // If handle is terminated, the stream is dead
                 Poll::Ready(None) => {
                     ready!(sink.as_mut().poll_flush(cx)).unwrap();
@@ -111,7 +118,9 @@ where
                 }
                 // If no messages are available and there's no work to do, block this future
                 Poll::Pending if stream.is_empty() && buffered_item.is_none() => {
-                    return Poll::Pending
+                    // Don't park on a flush that an earlier poll left unfinished
+                    ready!(sink.as_mut().poll_flush(cx)).unwrap();
+                    return Poll::Pending;
                 }
                 // Otherwise, move on with running the stream
                 Poll::Pending => (),
